@@ -12,3 +12,21 @@ REG.bounded_check("C04.type_pairs", ["C04"], "C04.bounded",
 REG.bounded_check("C14.union_and_substitution_laws", ["C14"], "C14.bounded",
                   covers=["annotate_value", "substitute_typevars of every Value class", "MultiValuedValue.__eq__", "Value.is_assignable on united operands", "member order of unite_values (C10)"],
                   bound="18 values: all pairs (idempotence, Never identity, members, commutativity, operand acceptance, first-occurrence order), triples over 12 (associativity); substitution: identity on 23 closed values x 3 maps, full replacement on 10 open values, commutation with uniting on 36 pairs")
+REG.bounded_check("C17.percent_and_str_format", ["C17"], "C17.bounded",
+                  covers=["ConversionSpecifier.from_match / _FORMAT_STRING_REGEX", "PercentFormatString.accept", "format_strings.parse_format_string", "implementation._str_format_impl"],
+                  bound="17 %-conversions x str/bytes x 24 literals; 12 %-templates x tuples of length 0..5; 17 str.format templates x 7 argument lists, compared with the real % operator / str.format through the checker (unused-argument lint territory compared one way only)")
+REG.bounded_check("C13.two_routes", ["C13"], "C13.bounded",
+                  covers=["arg_spec.ArgSpecCache.from_signature / _make_sig_parameter", "functions.compute_value_of_function", "annotations.type_from_runtime (simple annotations)"],
+                  bound="def headers: <=2 positional-only x <=2 positional-or-keyword x default suffixes x *args x <=2 keyword-only x **kwargs against inspect.signature; 9 annotated headers x sync/async x 11 call shapes judged through a nested def (def-statement route) and a module-level def (runtime-object route)")
+REG.bounded_check("C11.reference_projection", ["C11"], "pyanalyze.node_visitor.BaseNodeVisitor.show_error",
+                  covers=["BaseNodeVisitor.show_error / has_file_level_ignore / get_unused_ignores (cross-check of the proved kernels)"],
+                  bound="files of <= 3 lines over 8 line shapes x line numbers x 3 codes x obey_ignore x settings")
+REG.bounded_check("C16.step", ["C16"], "lemma.add_ignores_step",
+                  covers=["BaseNodeVisitor._apply_changes_to_lines", "show_error add_ignores replacement (cross-check of the proved kernels)"],
+                  bound="files of <= 4 lines, every single-line replacement with 0..2 additions; add-ignores step on files of <= 3 lines over 4 line shapes")
+REG.bounded_check("C02.narrowing", ["C02"], "pyanalyze.stacked_scopes.Constraint.apply_to_value",
+                  covers=["Constraint.apply_to_value (cross-check)", "Value.is_assignable on literals"],
+                  bound="12 objects x 14 values x 11 classes x both polarities (isinstance), 5 singletons (is); known findings D2/D3 skipped")
+REG.bounded_check("C15.solutions", ["C15"], "pyanalyze.typevar.solve",
+                  covers=["typevar.solve (cross-check)", "Value.is_assignable on the vocabulary"],
+                  bound="bound lists of length <= 3 over 6 static values x {lower, upper} + one IsOneOf; known finding D11 skipped")
